@@ -3,7 +3,7 @@
     Run from the directory that should receive model.ml / model.mli. *)
 From Coq Require Import ExtrOcamlBasic.
 From Coq Require Import List NArith ZArith.
-From WB Require Import Num Base Props World Kernels Features.
+From WB Require Import Num Base Props World Kernels Features Plume.
 
 Extraction Language OCaml.
 Extraction "model.ml"
@@ -12,4 +12,4 @@ Extraction "model.ml"
   properties3d properties2d temperature3d composition3d grains3d temperature2d composition2d grains2d
   cross_dir map2d cartesian_to_spherical spherical_to_cartesian
   approx polygon_contains polygon_contains_impl find_closest_points surface_local_value in_triangle
-  area_to_feature.
+  area_to_feature plume_to_feature plume_rel_distance.
